@@ -22,7 +22,7 @@ CONTROLS = os.path.join(VERIF, 'selftest', 'controls')
 CACHE = os.path.join(VERIF, '.cache')
 if REPO != '/repo':
     # analysing a scratch copy (self-tests, seeded changes): keep its facts apart from the real tree's cache
-    CACHE = os.path.join(VERIF, '.cache', 'alt')
+    CACHE = os.environ.get('VERIF_CACHE_DIR') or os.path.join(VERIF, '.cache', 'alt')
 FLAGS = ['-std=c++11', '-I' + INCLUDE, '-I' + DRIVERS, '-isystem', '/usr/include/eigen3',
          '-I/usr/lib/llvm-14/lib/clang/14.0.6/include', '-UNDEBUG', '-Wno-everything']
 
